@@ -14,6 +14,9 @@ import (
 type envVar struct {
 	t  *Term
 	ty types.Type
+	// captured: t is the address of a variable captured by the closure under contract; the name
+	// denotes the variable's value in the state the expression is evaluated in
+	captured bool
 }
 
 type Env struct {
@@ -46,11 +49,19 @@ func (fr *Frame) newEnv(st, old *State) *Env {
 	env := &Env{fr: fr, fc: fr.fc, st: st, old: old, vars: map[string]envVar{}, bound: map[string]envVar{}, lets: map[string]Expr{}}
 	fn := fr.fn
 	for _, p := range fn.Params {
-		env.vars[p.Name()] = envVar{fr.val(p), p.Type()}
+		env.vars[p.Name()] = envVar{t: fr.val(p), ty: p.Type()}
 	}
 	for i, fv := range fn.FreeVars {
 		if i < len(fr.binds) && fr.binds[i] != nil {
-			env.vars[fv.Name()] = envVar{fr.binds[i], fv.Type()}
+			env.vars[fv.Name()] = envVar{t: fr.binds[i], ty: fv.Type()}
+		} else if t, ok := fr.vals[fv]; ok && t != nil {
+			// a closure under contract: its captured variables by name (they are pointers to
+			// the enclosing function's variables: write *name in contracts)
+			if pt, isPtr := fv.Type().Underlying().(*types.Pointer); isPtr {
+				env.vars[fv.Name()] = envVar{t: t, ty: pt.Elem(), captured: true}
+			} else {
+				env.vars[fv.Name()] = envVar{t: t, ty: fv.Type()}
+			}
 		}
 	}
 	if fn.Pkg != nil {
@@ -78,16 +89,16 @@ func (env *Env) bindResults(sig *types.Signature, res []*Term) {
 		if nm == "" || nm == "_" {
 			nm = fmt.Sprintf("result%d", i)
 			if rs.Len() == 1 {
-				env.vars["result"] = envVar{res[i], r.Type()}
+				env.vars["result"] = envVar{t: res[i], ty: r.Type()}
 			}
 			if isErrorType(r.Type()) {
 				if _, taken := env.vars["err"]; !taken {
-					env.vars["err"] = envVar{res[i], r.Type()}
+					env.vars["err"] = envVar{t: res[i], ty: r.Type()}
 				}
 			}
 		}
-		env.vars[nm] = envVar{res[i], r.Type()}
-		env.vars[fmt.Sprintf("result%d", i)] = envVar{res[i], r.Type()}
+		env.vars[nm] = envVar{t: res[i], ty: r.Type()}
+		env.vars[fmt.Sprintf("result%d", i)] = envVar{t: res[i], ty: r.Type()}
 	}
 }
 
@@ -207,6 +218,10 @@ func (env *Env) ident(name string) (*Term, types.Type) {
 		return nilMarker, nil
 	case "$alloc":
 		return env.state().alloc, nil
+	case "$sent", "$recv":
+		// number of channel sends / receives this activation has performed (ghost counters kept
+		// by the symbolic execution of send, receive and select)
+		return env.fc.get(env.state(), "ghost:"+name, SBV64), types.Typ[types.Uint64]
 	}
 	if l, ok := env.lets[name]; ok {
 		return env.eval(l)
@@ -219,6 +234,9 @@ func (env *Env) ident(name string) (*Term, types.Type) {
 		}
 	}
 	if v, ok := env.vars[name]; ok {
+		if v.captured {
+			return env.fc.load(env.state(), env.fc.derefAddr(v.t, v.ty)), v.ty
+		}
 		return v.t, v.ty
 	}
 	if g, ok := env.fc.eng.contracts.ghosts[name]; ok {
@@ -606,7 +624,7 @@ func (env *Env) quant(x *EQuant) (*Term, types.Type) {
 		}
 		bv := BVar("q!"+v.Name, s)
 		bvs = append(bvs, bv)
-		env.bound[v.Name] = envVar{bv, ty}
+		env.bound[v.Name] = envVar{t: bv, ty: ty}
 	}
 	body := env.boolExpr(x.Body)
 	var pats [][]*Term
@@ -936,7 +954,7 @@ func (env *Env) callExpr(x *ECall) (*Term, types.Type) {
 		nv := map[string]envVar{}
 		for i, p := range md.params {
 			t, ty := arg(i)
-			nv[p] = envVar{t, ty}
+			nv[p] = envVar{t: t, ty: ty}
 		}
 		env.vars, env.lets, env.at = nv, map[string]Expr{}, nil
 		defer func() { env.vars, env.lets, env.at = savedVars, savedLets, savedAt }()
